@@ -17,6 +17,7 @@ import Mashu.Hooks
 import Mashu.Namespace
 import Mashu.Schema
 import Mashu.Mro
+import Mashu.Subst
 import Mashu.Generated
 open Lean
 
@@ -125,6 +126,29 @@ def dispatchArgs (j : Json) : Except String Json := do
     | some asg => Json.arr (asg.map (fun kv => Json.arr #[Json.str kv.1, Json.str kv.2])).toArray
     | none => Json.null
   pure (Json.mkObj [("pos", Json.arr (a.1.map Json.str).toArray), ("kw", Json.arr (a.2.map Json.str).toArray), ("bind", bj)])
+
+/-- C10 (generic fields): `substitute_type_params` on a type expression -/
+partial def toGTy (j : Json) : Except String Subst.GTy := do
+  let a ← arr j
+  match a[0]! with
+  | .str "var" => (match a[1]! with | .num n => pure (.var n.mantissa.toNat) | _ => throw "bad var")
+  | .str "app" => do pure (.app (← str a[1]!) (← (← arr a[2]!).toList.mapM toGTy))
+  | .str "ann" => do pure (.ann (← toGTy a[1]!) (← str a[2]!))
+  | _ => throw "bad GTy"
+
+partial def ofGTy : Subst.GTy → Json
+  | .var n => Json.arr #[Json.str "var", Json.num (JsonNumber.fromNat n)]
+  | .app c as => Json.arr #[Json.str "app", Json.str c, Json.arr (as.map ofGTy).toArray]
+  | .ann i t => Json.arr #[Json.str "ann", ofGTy i, Json.str t]
+
+def dispatchSubst (j : Json) : Except String Json := do
+  let t ← toGTy (j.getObjValD "ty")
+  let σ ← (← arr (j.getObjValD "sigma")).toList.mapM (fun e => do
+    let a ← arr e
+    let n ← (match a[0]! with | .num n => pure n.mantissa.toNat | _ => throw "bad var")
+    pure (n, (← toGTy a[1]!)))
+  pure (Json.mkObj [("impl", ofGTy (Subst.substImpl Generated.substAnnotatedRecursive σ t)),
+                    ("spec", ofGTy (Subst.subst σ t))])
 
 /-- C10: which customization level applies -/
 def dispatchResolve (j : Json) : Except String Json := do
@@ -457,6 +481,7 @@ def dispatch (j : Json) : Except String Json := do
   | "todict" => dispatchToDict j
   | "args" => dispatchArgs j
   | "resolve" => dispatchResolve j
+  | "subst" => dispatchSubst j
   | "pyrepr" | "pylex" => dispatchQuote op j
   | "discr" | "discrnf" | "discrf" => dispatchDiscr op j
   | "cache" | "merge" => dispatchCache op j
